@@ -82,6 +82,8 @@ def run_config(args):
                 continue
             for name, obl in p.value:
                 out["obligations"] += 1
+                if getattr(mod, "REDUCE", False):
+                    obl = S.reduce_b(obl, ctx.rules)
                 if name.endswith("~"):     # tolerance obligation over box-bounded inputs: relaxation first
                     verdict, env, dt = solve.decide_relaxed(ctx.pc, obl)
                 else:
@@ -195,7 +197,7 @@ def main_check(modname, tier, seed, extra=None):
     cfgs = mod.configs(tier, seed)
     ids = [c["id"] for c in cfgs]
     assert len(ids) == len(set(ids)), "duplicate cfg ids: %s" % [i for i in ids if ids.count(i) > 1][:5]
-    budget = getattr(mod, "CONFIG_BUDGET_S", {"quick": 120, "thorough": 900})[tier]
+    budget = getattr(mod, "CONFIG_BUDGET_S", {"quick": 900, "thorough": 3600})[tier]
     nproc = int(os.environ.get("VERIF_JOBS", str(os.cpu_count() or 4)))
     import multiprocessing as mp
     ctx = mp.get_context("fork")
